@@ -563,7 +563,7 @@ pub fn run(cfg: &Cfg) -> i32 {
             let want1 = format!("<buffer#{}>", base_n);
             let want2 = format!("<buffer#{}>", base_n + 1);
             if !as_designed(&r1) || name1.as_deref() != Some(&want1) {
-                machinery_error("C17: identical-text probe: first evaluation did not fail as designed");
+                vacuous("C17: identical-text probe: first evaluation did not fail as designed");
             }
             // what a failed source leaves behind is C10's subject: judge the repeat only when it failed the same way
             let (name2, tok2) = match (&loc2, as_designed(&r2)) {
@@ -593,7 +593,7 @@ pub fn run(cfg: &Cfg) -> i32 {
     let _ = std::fs::remove_dir_all(&dir);
     let u = unexpected.into_inner().unwrap();
     if !u.is_empty() {
-        machinery_error(&format!("C17 vacuous: {} template cases did not fail as designed, e.g. {}", cover.get("unexpected-result"), u[0]));
+        vacuous(&format!("C17 vacuous: {} template cases did not fail as designed, e.g. {}", cover.get("unexpected-result"), u[0]));
     }
     let c = capped.load(Ordering::Relaxed);
     if c > 0 {
@@ -602,17 +602,17 @@ pub fn run(cfg: &Cfg) -> i32 {
     // vacuity: every template and every atom must have been exercised
     for t in &tpls {
         if cover.get(&format!("template:{}/{}", t.kind.name(), t.name)) == 0 && c == 0 {
-            machinery_error(&format!("vacuous: template {}/{} never ran", t.kind.name(), t.name));
+            vacuous(&format!("vacuous: template {}/{} never ran", t.kind.name(), t.name));
         }
     }
     if max_len > 0 && c == 0 {
         for an in ATOM_NAMES {
             if cover.get(&format!("layout-contains:{}", an)) == 0 {
-                machinery_error(&format!("vacuous: layout atom {} never used", an));
+                vacuous(&format!("vacuous: layout atom {} never used", an));
             }
         }
         if cover.get("col-differs-from-byte-col") == 0 || cover.get("line>0") == 0 {
-            machinery_error("vacuous: no case with a multi-byte column or a later line");
+            vacuous("vacuous: no case with a multi-byte column or a later line");
         }
     }
     for s in samples.into_inner().unwrap() {
